@@ -10,6 +10,8 @@ import PygProofs.Lemmas.OpsFLemmas
 import PygProofs.Lemmas.OpsXLemmas
 import PygProofs.Lemmas.OpsFXLemmas
 import PygProofs.Lemmas.OpsFoldLemmas
+import PygProofs.Lemmas.OpsMixedLemmas
+import PygProofs.Lemmas.OpsFCellLemmas
 
 namespace Pyg.Props.C08
 open Pyg Pyg.Align Pyg.Ops
@@ -1714,5 +1716,160 @@ theorem oj_neutral_per_step :
         [.df ⟨[0], [("a", [some 1]), ("b", [some 2])]⟩, .df ⟨[0], [("b", [some 4]), ("c", [some 8])]⟩, .num (some 1)] [] =
       some (.df ⟨[0], [("a", [some 2]), ("b", [some 7]), ("c", [some 9])]⟩) := by
   decide +kernel
+
+/-! ### lists that MIX Series and scalars (reviews t4 / v4: `reduce_value_n` was for Series only) -/
+
+/-- **left to right for lists that MIX Series and scalars, by value**: `add_` / `mul_` of ANY list of at least two operands holding
+at least one Series (no fill method, any index policy) is the Series on the joint index of the Series among them (`df_index`
+skips scalars) whose value at `t` is the left fold `((x[t] op y[t]) op ...)` of what every operand shows at `t`
+(`Operand.valAt`: a Series its own value, NaN without a row; a scalar itself) - induction over the list through
+`binop_step_mixed`, not the model's own fold.  `reduce_value_n` is the case without scalars. -/
+theorem reduce_value_mixed (op : Op) (hop : op = .add ∨ op = .mul) (how : How) (x y : Operand) (xs : List Operand)
+    (jx : List Int) (hj : joinIndex how (indexesOf (x :: y :: xs)) = some jx) :
+    opList op how Option.none (x :: y :: xs) [] =
+      some (.ts { idx := jx, vals := jx.map fun t => (y :: xs).foldl (fun v s => op.appO v (s.valAt t)) (x.valAt t) }) := by
+  obtain ⟨h1, h2, h3⟩ := foldl_binop_mixed op how x (y :: xs)
+  rw [reduce_left op hop, List.append_nil]
+  have hidx : ((y :: xs).foldl (binop op how Option.none) x).idx? = some jx := by
+    rw [h1, ← hj]
+    have := joinO_all how (x :: y :: xs)
+    rw [List.foldl_cons] at this
+    have h0 : joinO how Option.none x.idx? = x.idx? := rfl
+    rw [h0] at this
+    exact this
+  have hn := h2 (by simp)
+  cases hr : (y :: xs).foldl (binop op how Option.none) x with
+  | num q => rw [hr] at hidx; cases hidx
+  | ts s =>
+    rw [hr] at hidx hn h3
+    have hs : s.idx = jx := by simpa [Operand.idx?] using hidx
+    cases s with
+    | mk si sv =>
+      subst hs
+      congr 3
+      exact hn.trans (List.map_congr_left fun t _ => h3 t)
+
+/-- ... and a list of scalars only is the scalar left fold -/
+theorem reduce_value_scalars (op : Op) (hop : op = .add ∨ op = .mul) (how : How) (p : Option Rat) (qs : List (Option Rat)) :
+    opList op how Option.none ((p :: qs).map .num) [] = some (.num (qs.foldl op.appO p)) := by
+  rw [List.map_cons, reduce_left op hop, List.append_nil]
+  congr 1
+  induction qs generalizing p with
+  | nil => rfl
+  | cons q qs ih =>
+    have hb : binop op how Option.none (.num p) (.num q) = .num (op.appO p q) := by
+      simp [binop, alignAll, indexesOf, joinIndex, kernel]
+    simp only [List.map_cons, List.foldl_cons, hb]
+    exact ih _
+
+/-- `add_([a, 1, b], join='oj')`: the joint index is the union of the two Series' indices, the value `(a[t] + 1) + b[t]` -/
+example (a b : RSeries) : ∃ jx, joinIndex .outer (indexesOf [.ts a, .num (some 1), .ts b]) = some jx ∧
+    opList .add .outer Option.none [.ts a, .num (some 1), .ts b] [] =
+      some (.ts { idx := jx, vals := jx.map fun t => Op.add.appO (Op.add.appO (valueAtR a t) (some 1)) (valueAtR b t) }) :=
+  ⟨_, rfl, reduce_value_mixed .add (Or.inl rfl) .outer (.ts a) (.num (some 1)) [.ts b] _ rfl⟩
+
+/-! ### a LIST of multi-column frames, by cell -/
+
+/-- one step of the fold over frames with ONE header, read at every label -/
+theorem binopF_step_same (op : Op) (how : How) (ch : ColHow) (a b : RFrame) (ha : a.cols.length > 1) (hn : b.names = a.names) :
+    ∃ r, binopF op how Option.none ch (.df a) (.df b) = .df r ∧ r.names = a.names ∧ r.idx = join2 how a.idx b.idx ∧
+      ∀ c ∈ a.names, ∀ t, cellD Option.none r Option.none c t =
+        op.appO (cellD Option.none a Option.none c t) (cellD Option.none b Option.none c t) := by
+  have hla : a.names.length = a.cols.length := by simp [RFrame.names]
+  have hlb : b.names.length = b.cols.length := by simp [RFrame.names]
+  have hb : b.cols.length > 1 := by rw [← hlb, hn, hla]; exact ha
+  obtain ⟨ix, hix, h'⟩ := binopF_value op how Option.none ch a b ha hb
+  have hfc : frameCols ch a b = a.names := by simp [frameCols, hn]
+  have hne : a.names ≠ [] := by intro h0; rw [h0] at hla; simp at hla; omega
+  have hix' : ix = join2 how a.idx b.idx := by
+    rw [joinIndex_pair] at hix; exact (Option.some.inj hix).symm
+  rw [hfc, if_neg hne] at h'
+  refine ⟨_, h', ?_, hix', ?_⟩
+  · simp [RFrame.names, List.map_map, Function.comp_def]
+  · intro c hc t
+    by_cases ht : t ∈ ix
+    · rw [cell_of_built Option.none ix a.names
+        (fun c t => op.appO (cellD (some op.neutral) a Option.none c t) (cellD (some op.neutral) b Option.none c t)) c t hc ht]
+      rw [cellD_default (some op.neutral) Option.none a _ c t hc, cellD_default (some op.neutral) Option.none b _ c t (hn ▸ hc)]
+    · have hcr : c ∈ RFrame.names { idx := ix, cols := a.names.map fun c => (c, ix.map fun t =>
+          op.appO (cellD (some op.neutral) a Option.none c t) (cellD (some op.neutral) b Option.none c t)) } := by
+        have : RFrame.names { idx := ix, cols := a.names.map fun c => (c, ix.map fun t =>
+          op.appO (cellD (some op.neutral) a Option.none c t) (cellD (some op.neutral) b Option.none c t)) } = a.names := by
+          simp [RFrame.names, List.map_map, Function.comp_def]
+        rw [this]; exact hc
+      rw [cellD_no_row _ _ c t hcr ht]
+      exact (appO_outside_frames op how a b c t hc (hn ▸ hc) (hix' ▸ ht)).symm
+
+
+theorem foldl_binopF_same (op : Op) (how : How) (ch : ColHow) (a : RFrame) (xs : List RFrame) (ha : a.cols.length > 1)
+    (hn : ∀ f ∈ xs, f.names = a.names) :
+    ∃ r, (xs.map FOperand.df).foldl (binopF op how Option.none ch) (.df a) = .df r ∧ r.names = a.names ∧
+      r.idx = (xs.map (·.idx)).foldl (join2 how) a.idx ∧
+      ∀ c ∈ a.names, ∀ t, cellD Option.none r Option.none c t =
+        xs.foldl (fun v f => op.appO v (cellD Option.none f Option.none c t)) (cellD Option.none a Option.none c t) := by
+  induction xs generalizing a with
+  | nil => exact ⟨a, rfl, rfl, rfl, fun _ _ _ => rfl⟩
+  | cons b xs ih =>
+    obtain ⟨a', h1, h2, h3, h4⟩ := binopF_step_same op how ch a b ha (hn b (by simp))
+    have ha' : a'.cols.length > 1 := by
+      have e1 : a'.names.length = a'.cols.length := by simp [RFrame.names]
+      have e2 : a.names.length = a.cols.length := by simp [RFrame.names]
+      rw [← e1, h2, e2]; exact ha
+    obtain ⟨r, g1, g2, g3, g4⟩ := ih a' ha' (fun f hf => by rw [h2]; exact hn f (by simp [hf]))
+    refine ⟨r, ?_, g2.trans h2, ?_, ?_⟩
+    · simp only [List.map_cons, List.foldl_cons, h1, g1]
+    · simp only [List.map_cons, List.foldl_cons, g3, h3]
+    · intro c hc t
+      simp only [List.foldl_cons, g4 c (h2 ▸ hc) t, h4 c hc t]
+
+/-- **lists of multi-column frames reduce left to right, BY CELL** (`reduce_value_frames`, open since round h4): `add_` / `mul_` of
+a list of at least two frames that carry ONE header of several columns (the everyday case; no fill method, ANY index policy, any
+column policy) is a frame with that header on the joint index of ALL frames (`joinIndex` of the list) whose cell `(t, c)`, read by
+label at EVERY `t` (NaN where it has no row), is the LEFT fold `((x[t,c] op y[t,c]) op ...)` of the frames' own cells - induction
+through `binopF_step_same` (one presync-decorated step read at every label), not the model's fold.  With DIFFERENT headers no
+plain cell-wise fold holds: under `'ij'` an intermediate one-column result is broadcast, under `lj` / `rj` + `'oj'` a column only
+an earlier frame has keeps `x op neutral` at labels the intermediate result has no row for (notes, round k4). -/
+theorem reduce_value_frames (op : Op) (hop : op = .add ∨ op = .mul) (how : How) (ch : ColHow) (x y : RFrame) (xs : List RFrame)
+    (hx : x.cols.length > 1) (hn : ∀ f ∈ y :: xs, f.names = x.names) :
+    ∃ r, opListF op how Option.none ch ((x :: y :: xs).map .df) [] = some (.df r) ∧ r.names = x.names ∧
+      joinIndex how ((x :: y :: xs).map (·.idx)) = some r.idx ∧
+      ∀ c ∈ x.names, ∀ t, cellD Option.none r Option.none c t =
+        (y :: xs).foldl (fun v f => op.appO v (cellD Option.none f Option.none c t)) (cellD Option.none x Option.none c t) := by
+  obtain ⟨r, h1, h2, h3, h4⟩ := foldl_binopF_same op how ch x (y :: xs) hx hn
+  refine ⟨r, ?_, h2, ?_, h4⟩
+  · rw [List.map_cons, reduce_left_frames op hop, List.append_nil, h1]
+  · rw [h3, List.map_cons]; exact joinIndex_fold how x.idx ((y :: xs).map (·.idx))
+
+example : ∃ r, opListF .add .outer Option.none .ij
+    ([{ idx := [0, 1], cols := [("a", [some 1, some 2]), ("b", [some 3, Option.none])] },
+      { idx := [1, 2], cols := [("a", [some 10, some 20]), ("b", [some 30, some 40])] },
+      { idx := [1], cols := [("a", [some 100]), ("b", [some 300])] }].map .df) [] = some (.df r) ∧ r.names = ["a", "b"] ∧
+    joinIndex .outer [[0, 1], [1, 2], [1]] = some r.idx := by
+  obtain ⟨r, h1, h2, h3, _⟩ := reduce_value_frames .add (Or.inl rfl) .outer .ij
+    { idx := [0, 1], cols := [("a", [some 1, some 2]), ("b", [some 3, Option.none])] }
+    { idx := [1, 2], cols := [("a", [some 10, some 20]), ("b", [some 30, some 40])] }
+    [{ idx := [1], cols := [("a", [some 100]), ("b", [some 300])] }] (by decide) (by decide)
+  exact ⟨r, h1, h2, h3⟩
+
+/-! ### commutativity for LISTS (open since round r4) -/
+
+/-- **add_ / mul_ of a LIST do not depend on the order of the operands, by value**: for two lists of Series and scalars that are
+permutations of one another (at least two operands, no fill method, any index policy) the two results show the same value at
+EVERY label `t` (`Operand.valAt`: NaN outside the result's index).  Under `ij` / `oj` the indices are the same SET as well
+(`binop_index_inner / _outer`); under `lj` / `rj` the result index is the first / last operand's, so the values agree on the
+labels both results have and are NaN elsewhere.  Proof: `foldl_binop_mixed` + `List.Perm.foldl_eq'` with `appO_right_comm`. -/
+theorem reduce_perm_value (op : Op) (hop : op = .add ∨ op = .mul) (how : How) (x y x' y' : Operand) (xs xs' : List Operand)
+    (hp : (x :: y :: xs).Perm (x' :: y' :: xs')) (r r' : Operand)
+    (h : opList op how Option.none (x :: y :: xs) [] = some r) (h' : opList op how Option.none (x' :: y' :: xs') [] = some r') (t : Int) :
+    r.valAt t = r'.valAt t := by
+  rw [reduce_left op hop, List.append_nil] at h h'
+  cases h; cases h'
+  rw [(foldl_binop_mixed op how x (y :: xs)).2.2 t, (foldl_binop_mixed op how x' (y' :: xs')).2.2 t]
+  have e : ∀ (z : Operand) (zs : List Operand), zs.foldl (fun v s => op.appO v (s.valAt t)) (z.valAt t) =
+      ((z :: zs).map (·.valAt t)).foldl op.appO (some op.neutral) := by
+    intro z zs
+    rw [List.map_cons, ← fold_from_neutral op hop, List.foldl_map]
+  rw [e, e]
+  exact List.Perm.foldl_eq' (hp.map _) (fun a _ b _ v => appO_right_comm op hop v a b) _
 
 end Pyg.Props.C08
